@@ -156,6 +156,7 @@ def main(argv=None):
     vac = dict(requires_sat=0, covers_sat=0, covers_total=0, covers_unknown=0)
     samples = []
     failed = []
+    cross = {"z3-4.8": {}, "cvc5-1.0": {}}
     for r in results:
         if r.get("crash"):
             crashes.append((r["contract"], r["crash"]))
@@ -190,6 +191,10 @@ def main(argv=None):
                 failed.append((r, ob))
             else:
                 undecided.append(f"{ob['ident']} [{r['case']}]: solver unknown ({ob.get('tried')})")
+            for bk, res in (ob.get("cross") or {}).items():
+                cross[bk][res] = cross[bk].get(res, 0) + 1
+                if res == "sat" and ob["status"] == "unsat":
+                    crashes.append((ob["ident"], f"back ends disagree: {ob['backend']} says unsat, {bk} says sat"))
             if len(samples) < 4 and ob["status"] == "unsat":
                 samples.append(dict(obligation=ob["ident"], case=r["case"], result=ob["status"], backend=ob["backend"],
                                     time_s=ob["time_s"], smt2_bytes=ob.get("smt2_bytes")))
@@ -314,6 +319,7 @@ def main(argv=None):
                              "bounded stand-ins listed under bounded_standins are not counted as proved"),
                 functions_under_contract=funcs,
                 by_backend=by_backend, solver_time_s=round(solver_time, 3),
+                cross_check_by_independent_backends=(cross if args.tier == "thorough" else "thorough tier only"),
                 trivially_true_obligations_folded=sum(r.get("trivial", 0) for r in results),
                 paths=sum(r.get("paths", 0) for r in results),
                 cases=len([t for t in tasks if t[0] == "case"]), lemmas=len([t for t in tasks if t[0] == "lemma"]),
